@@ -936,7 +936,10 @@ def canon_real(o, prev_exc):
     cbs = [c for c in o["cbs"] if not c.startswith("gss:")]
     return {"cbs": "|".join(cbs), "sent": ",".join(x.hex() for x in o["sent"]),
             "active": int(o["active"]), "authed": int(o["authed"]), "chans": o["nchan"],
-            "excname": exc, "wire": o.get("wire"), "username": o.get("username")}
+            "excname": exc, "wire": o.get("wire"), "username": o.get("username"),
+            # calls into the (stub) GSS context, in order, interleaved position relative to callbacks kept in "order"
+            "gss": [c for c in o["cbs"] if c.startswith("gss:")],
+            "order": [c if c.startswith("gss:") else c[:c.index("(")] if "(" in c else c for c in o["cbs"]]}
 
 
 def driver_lines(sid, steps, gss_kex):
@@ -1152,6 +1155,19 @@ def verdicts(st, r):
     return out
 
 
+def gss_evidence(st, r, name):
+    """an approval by check_auth_gssapi_* only counts if paramiko's claim 'the GSS-API exchange authenticated this
+    client' (gss_authenticated=AUTH_SUCCESSFUL) is true: the context's MIC check really ran in this step, before the
+    callback, and did not raise"""
+    if name not in ("gssmic", "gsskeyex"):
+        return True
+    order = r.get("order") or []
+    if name not in order or "gss:check_mic" not in order:
+        return False
+    return order.index("gss:check_mic") < order.index(name) and bool(st["env"].get("mic_ok", True))
+
+
 def legitimately_granted(st, r):
     """USERAUTH_SUCCESS is on the wire in this step AND the application's verdict in this step was AUTH_SUCCESSFUL"""
-    return any(m == b"\x34" for m in sent_list(r)) and any(v == 0 for _n, _c, v in verdicts(st, r))
+    return any(m == b"\x34" for m in sent_list(r)) and any(v == 0 and gss_evidence(st, r, n)
+                                                           for n, _c, v in verdicts(st, r))
